@@ -30,11 +30,12 @@ def foldM' {α β : Type} (f : β → α → R β) : β → List α → R β
     | .ok b' => foldM' f b' as
     | .error e => .error e
 
-def checkGate (instrs : List Instr) (bases : List Basis) (g0 : Instr) (gid : Nat) : R Unit :=
+def checkGate (instrs : List Instr) (bases : List Basis) (pair : Bool) (g0 : Instr) (gid : Nat) : R Unit :=
   match instrs[gid]? with
   | none => .error (.other "IndexError")
   | some g =>
     if !isQpd g then .error (.value "index corresponds to a non-QPDGate") else
+    if pair && isQpd2 g then .error (.value "a decomposition with two elements must consist of two one-qubit placeholders") else
     match basisOfInstr bases g0, basisOfInstr bases g with
     | some b0, some b => if b0.beq b then .ok () else .error (.value "gates must share an equivalent basis")
     | _, _ => .error (.other "dangling basis reference")
@@ -45,7 +46,7 @@ def checkDecomp (instrs : List Instr) (bases : List Basis) (d : List Nat) : R Un
   | none => .error (.other "IndexError")
   | some g0 =>
     if !isQpd g0 then .error (.value "index corresponds to a non-QPDGate") else
-    forM' (checkGate instrs bases g0) d
+    forM' (checkGate instrs bases (d.length == 2) g0) d
 
 /-- `_validate_qpd_instructions` -/
 def validateDecomp (instrs : List Instr) (bases : List Basis) (ids : List (List Nat)) : R Unit :=
